@@ -12,7 +12,8 @@ in a fresh scratch directory:
   main thread, every ``open`` with a writing mode, ``os.rename/replace``, ``os.remove``,
   ``shutil.rmtree/copyfile/move``, ``os.symlink/link/truncate`` below the case's output
   directories; ``OmegaConf.save`` and ``torch.save`` are additionally wrapped (boundary
-  after the call returns).  At each such boundary the *crash snapshot* is taken: every
+  after the call returns) and entering ``lightning.Trainer.fit`` is a boundary too (so every
+  configuration has a crash point inside the try-block of ``ModelTrainer.train``).  At each such boundary the *crash snapshot* is taken: every
   file currently below the output / chunk / wandb directories is searched for the key
   (raw bytes in utf-8/16/32, every member of zip archives - Lightning checkpoints and
   ``.npz`` chunks are zip files).  A process dying at that boundary leaves exactly that
@@ -64,7 +65,8 @@ RULE = (
 ASSUMPTIONS = [
     "wandb runs in offline mode only (no network in the sandbox): wandb_mode='offline', so wandb.login(key) "
     "(which would write ~/.netrc, outside the output directories) is never reached",
-    "crash points = Python-level write events on the main thread + torch.save/OmegaConf.save returns; writes "
+    "crash points = Python-level write events on the main thread + torch.save/OmegaConf.save returns + entry of "
+    "Trainer.fit (all patched in the harness for the duration of a case only); writes "
     "done by other threads/processes (wandb-core service) raise no boundary of their own but their files are "
     "part of every later snapshot and of the final scan",
     "a crash *inside* one write leaves a prefix of what the next snapshot sees, so scanning at the next "
@@ -148,6 +150,7 @@ class _Monitor:
         self.n = 0
         self.labels = []
         self.cache = {}
+        self.fit_span = None  # [first boundary index inside Trainer.fit, first index after it]
         self.hits = {}  # rel path -> {"first": idx, "last": idx, "how": str, "n": count}
         self.scans = 0
 
@@ -543,18 +546,21 @@ def run_once(case, kill=None):
     indir = os.path.join(d, "in")
     tmpd = os.path.join(d, "tmp")
     home = os.path.join(d, "wandb-home")
-    for x in (indir, tmpd, home):
+    cwd = os.path.join(d, "cwd")  # working directory of the run: nothing may be written there either
+    for x in (indir, tmpd, home, cwd):
         os.makedirs(x)
     chunks = os.path.join(d, "chunks") if case["npp"] == "sep" else None
-    roots = [out] + ([chunks] if chunks else [])
+    roots = [out] + ([chunks] if chunks else []) + [cwd]
     chunk_base = chunks or out
     rep = {"outcome": None, "exc": None, "exc_bucket": None, "tr_config": None, "dir": d}
 
     saved_env = {k: os.environ.get(k) for k in _ENV_KEYS}
     saved_tmp = tempfile.tempdir
+    saved_cwd = os.getcwd()
     saved_sigs = {s: signal.getsignal(s) for s in _SIGS}
     orig_osave = OmegaConf.__dict__["save"]
     orig_tsave = torch.save
+    orig_lfit = None
     threads_before = set(threading.enumerate())
     tr = None
     try:
@@ -567,6 +573,7 @@ def run_once(case, kill=None):
             WANDB_MODE="offline", WANDB_SILENT="true", TMPDIR=tmpd,
         )
         tempfile.tempdir = tmpd
+        os.chdir(cwd)
 
         def osave(*a, **k):
             r = orig_osave.__func__(*a, **k)
@@ -578,7 +585,18 @@ def run_once(case, kill=None):
             mon.boundary("torch.save:returned")
             return r
 
+        from lightning.pytorch import Trainer as _LTrainer
         from sleap_nn.training.model_trainer import ModelTrainer
+
+        def lfit(self_, *a, **k):
+            # entering Trainer.fit is a boundary of its own, so that every configuration (also those that
+            # write nothing during fit) has a crash/kill point inside the try-block of ModelTrainer.train
+            mon.fit_span = [mon.n, None]
+            try:
+                mon.boundary("Trainer.fit:entered")
+                return orig_lfit(self_, *a, **k)
+            finally:
+                mon.fit_span[1] = mon.n
 
         mon.reset(roots, case["key"], kill, d)
         mon.main_ident = threading.get_ident()
@@ -587,6 +605,8 @@ def run_once(case, kill=None):
         with _Quiet():
             OmegaConf.save = staticmethod(osave)
             torch.save = tsave
+            orig_lfit = _LTrainer.fit
+            _LTrainer.fit = lfit
             mon.active = True
             try:
                 tr = ModelTrainer(cfg)
@@ -609,6 +629,7 @@ def run_once(case, kill=None):
                 mon.active = False
                 OmegaConf.save = orig_osave
                 torch.save = orig_tsave
+                _LTrainer.fit = orig_lfit
                 # nothing started by the case may outlive it
                 try:
                     wandb.finish()
@@ -631,6 +652,7 @@ def run_once(case, kill=None):
         rep["n_boundaries"] = mon.n
         rep["boundary_labels"] = list(mon.labels)
         rep["killed_at"] = mon.killed_at
+        rep["fit_span"] = list(mon.fit_span) if mon.fit_span else None
         rep["scans"] = mon.scans
 
         # ---- artifacts
@@ -693,7 +715,12 @@ def run_once(case, kill=None):
         mon.active = False
         OmegaConf.save = orig_osave
         torch.save = orig_tsave
+        if orig_lfit is not None:
+            from lightning.pytorch import Trainer as _LT
+
+            _LT.fit = orig_lfit
         tempfile.tempdir = saved_tmp
+        os.chdir(saved_cwd)
         for k, v in saved_env.items():
             if v is None:
                 os.environ.pop(k, None)
@@ -726,7 +753,9 @@ def _skeleton_nodes(conf):
 
 def file_class(rel):
     """Stable class of a file below the case directory (no run ids / timestamps)."""
-    parts = rel.split("/")[1:]  # drop 'out' / 'chunks'
+    loc, parts = rel.split("/")[0], rel.split("/")[1:]  # 'out' / 'chunks' / 'cwd'
+    if loc == "cwd":
+        return "cwd/*" + os.path.splitext(parts[-1])[1]
     if len(parts) == 1:
         name = parts[0]
         if name == "config.yaml":
@@ -911,7 +940,7 @@ def evaluate(case):
     n_evals = rep["scans"] + 1
     nb = rep["n_boundaries"]
     res.cls(f"boundaries={nb}", f"runA={rep['outcome']}")
-    TIMING.append((_label(case), round(rep["seconds"], 2), nb))
+    TIMING.append((case["model"], round(rep["seconds"], 2), nb))
     if rep["threads_left"] or rep["children_left"]:
         res.cls(f"leftover:threads={rep['threads_left']},children={rep['children_left']}")
     if nb < 3:
@@ -922,8 +951,14 @@ def evaluate(case):
     kills = case.get("kills") or []
     if kills == "all":
         kills = [[k, fl] for k in range(nb) for fl in ("base", "kbd")]
-    for k_raw, flavour in kills:
-        k = int(k_raw) % nb
+    span = rep["fit_span"]
+    for kl in kills:
+        k_raw, flavour = kl[0], kl[1]
+        region = kl[2] if len(kl) > 2 else "any"
+        if region == "fit" and span and span[1] is not None and span[1] > span[0]:
+            k = span[0] + int(k_raw) % (span[1] - span[0])  # a boundary inside Trainer.fit of run A
+        else:
+            k = int(k_raw) % nb
         rb = run_once(case, kill=(k, flavour))
         rb["kill"] = [k, flavour]
         n_evals += rb["scans"] + 1
@@ -931,7 +966,8 @@ def evaluate(case):
             # the run diverged from run A before boundary k (only possible after an exception)
             res.cls("kill:not-reached")
         else:
-            res.cls(f"kill:{flavour}", f"kill-in:{'init' if not rb.get('constructed') else 'train'}", f"unwind-boundaries={min(rb['n_boundaries'] - 1 - k, 9)}")
+            where = "init" if not rb.get("constructed") else ("fit" if span and span[0] <= k < (span[1] or 0) else "train")
+            res.cls(f"kill:{flavour}", f"kill-in:{where}", f"unwind-boundaries={min(rb['n_boundaries'] - 1 - k, 9)}")
         judge_key(res, case, rb)
     res.n_evals = n_evals
     return res
@@ -996,10 +1032,13 @@ def strategy():
         key = "c1" + tail  # 40 hex characters; the fixed head keeps shrunk keys from degenerating to a common string
         seed = draw(st.integers(0, 2**16))
         labels = draw(st.sampled_from(["asset", "one"]))
+        # (k, flavour, region) drawn as ONE joint choice of (flavour, region); "fit" = inside Trainer.fit, where
+        # Lightning's teardown and the finally-block of ModelTrainer.train unwind
+        kinds = [("base", "fit"), ("kbd", "fit"), ("base", "fit"), ("kbd", "fit"), ("base", "any"), ("kbd", "any")]
         kills = draw(
             st.lists(
-                st.tuples(st.integers(0, 999), st.sampled_from(["base", "kbd"])).map(list),
-                min_size=0,
+                st.tuples(st.integers(0, 999), st.sampled_from(kinds)).map(lambda t: [t[0], t[1][0], t[1][1]]),
+                min_size=1,
                 max_size=2,
             )
         )
@@ -1027,7 +1066,7 @@ def parts(tier):
             name="sampled",
             evaluate=evaluate,
             strategy=strategy,
-            budget={"quick": 50, "thorough": 1600},
+            budget={"quick": 40, "thorough": 1600},
             shards={"quick": 1, "thorough": 16},
             min_nontrivial={"quick": 12, "thorough": 300},
             setup=_setup,
@@ -1044,6 +1083,10 @@ def extra_coverage():
         secs = [t[1] for t in TIMING]
         out["run_seconds"] = {"min": min(secs), "max": max(secs), "mean": round(sum(secs) / len(secs), 2), "runs": len(secs)}
         out["boundaries_per_run"] = {"min": min(t[2] for t in TIMING), "max": max(t[2] for t in TIMING)}
+        out["run_seconds_by_model"] = {
+            m: round(sum(t[1] for t in TIMING if t[0] == m) / max(1, len([t for t in TIMING if t[0] == m])), 2) for m in MODELS
+        }
+        out["timing_note"] = "wall seconds of the undisturbed run A per case (quick tier, in-process); evidence only"
     return out
 
 
